@@ -107,7 +107,9 @@ def lite_dataframe(data=None, *a, **k):
     return pdlite.DataFrame(data)
 
 
-def ob_execute(n_points, n_trials, dname, mode):
+def ob_execute(n_points, n_trials, dname, mode, symbolic_trials=None):
+    """symbolic_trials: indexes of the trials whose score is a solver variable (default: all); the others are concrete
+    (keeps the variance comparison tractable for many trials)"""
     direction = DIRS[dname]
 
     def f():
@@ -123,7 +125,8 @@ def ob_execute(n_points, n_trials, dname, mode):
             else:
                 grid = {"p": list(range(n_points))}
             points = expected_points(grid)
-            scores = [[sym.real(f"s{i}.{j}") for j in range(n_trials)] for i in range(len(points))]
+            scores = [[sym.real(f"s{i}.{j}") if symbolic_trials is None or j in symbolic_trials
+                       else float((3 * i + j) % 4) for j in range(n_trials)] for i in range(len(points))]
             algo = RecordingOptimizer(scores, points, direction)
             t = make_task([cont()], lambda x, i: 0.0, minmax=direction)
             tuner = HT.HyperTuner(algo, param_grid=grid)
@@ -198,6 +201,9 @@ def obligations(tier):
         for d in ("min", "max"):
             obs.append(Ob(f"execute[points={n_points},trials={n_trials},{d}]",
                           ob_execute(n_points, n_trials, d, "serial"), 3000 if n_points * n_trials >= 8 else 600))
+    # many trials (two-digit trial numbers): only the last trial is symbolic
+    for d in ("min", "max"):
+        obs.append(Ob(f"execute_many_trials[points=2,trials=11,{d}]", ob_execute(2, 11, d, "serial", symbolic_trials=(10,)), 900))
     obs.append(Ob("execute[points=2,trials=2,min,thread]", ob_execute(2, 2, "min", "thread"), 600))
     obs.append(Ob("bad_mode", ob_bad_mode(), 60))
     obs.append(Ob("twin_vacuity", twin(), 120, expect_refuted=True))
